@@ -9,7 +9,7 @@ HOLD_LABELS = ['call', 'wf.enter', 'wf.exit', 'add.enq', 'loop.wake', 'loop.pass
                'rel.enter', 'rel.bcast', 'jclose.marked', 'wuf.locked', 'wuf.wait', 'wuf.woken', 'pause.load', 'resume.check',
                'resume.stored', 'stop.waited', 'stop.chans', 'stop.nodes', 'stopall.removed', 'restart.waited', 'restart.closed',
                'restart.newchans', 'restart.reset', 'start.enter', 'start.node', 'node.init', 'tune.stored', 'tune.popped',
-               'purge.deq', 'job.sp.load', 'job.mc.load', 'jclose.checked', 'disp.cas.load', 'serve.wfdone', 'lifecycle.locked', 'tune.checked', 'reap.expired', 'add.pre', 'wgc.cas', 'resp.stored', 'resp.close', 'mgr.register', 'ad.sub', 'reap.tick', 'reap.snap', 'reap.removed', 'reap.stopped', 'ctx.fired', 'sub.notify', 'free.push', 'free.stop', 'bind.sub', 'wgc.load', 'wrap.wf', 'wrap.ret']
+               'purge.deq', 'job.sp.load', 'job.mc.load', 'jclose.checked', 'disp.cas.load', 'serve.wfdone', 'lifecycle.locked', 'tune.checked', 'reap.expired', 'add.pre', 'wgc.cas', 'resp.stored', 'resp.close', 'mgr.register', 'ad.sub', 'reap.tick', 'reap.snap', 'reap.removed', 'reap.stopped', 'ctx.fired', 'sub.notify', 'free.push', 'free.stop', 'bind.sub', 'wgc.load', 'wrap.wf', 'wrap.ret', 'q.len', 'q.deq', 'q.enq']
 
 
 def sched(rng, procs=('disp', 'pg', 'c', 'w', 'ctl', 'x')):
@@ -211,6 +211,39 @@ def fam_storm(rng, pid):
         b.client('c%d' % (i + 1), ops)
     p = b.prog(cfg)
     p['outcome'] = outcomes(rng, b.jobs, p_bad=rng.choice([0.5, 0.9, 1.0]))
+    return p
+
+
+def fam_wq(rng, pid):
+    """small programs on a gate-instrumented queue (kinds wfifo / wprio): every read of the queue length and every dequeue inside the
+    library is a scheduling point, so the windows around them (condition checks of the event loop, of WaitUntilFinished, of
+    releaseWaiters and freePoolNode; strategies; Purge) are reachable by the gate"""
+    b = Builder(rng, 'wq', pid)
+    cfg = base_cfg(rng, conc=rng.choice([1, 1, 2]))
+    cfg['queues'] = ['w' + cfg['queues'][0]]
+    pr = PRIOS if cfg['queues'][0] == 'wprio' else None
+    ops = [b.add(0, pr) for _ in range(rng.choice([2, 3]))]
+    r = rng.random()
+    if r < 0.5:
+        ops.append({'op': 'WUF'})
+    elif r < 0.7:
+        ops += [{'op': 'Wait', 'job': ops[-1]['job']}]
+    b.client('c1', ops)
+    k = rng.random()
+    if k < 0.25:
+        b.client('x', [{'op': rng.choice(['PauseAndWait', 'Pause'])}, {'op': 'NumProcessing'}, {'op': 'Resume'}, {'op': 'WUF'}])
+    elif k < 0.4:
+        b.client('x', [{'op': 'Purge', 'q': 0}, {'op': 'WUF'}])
+    elif k < 0.55:
+        b.client('x', [{'op': 'Close', 'job': rng.choice(b.jobs)}, {'op': 'WUF'}])
+    elif k < 0.7:
+        b.client('x', [{'op': 'Stop'}, {'op': 'NumProcessing'}, {'op': 'Restart'}, {'op': 'WUF'}])
+    elif k < 0.8:
+        b.client('x', [{'op': 'WUF'}, {'op': 'NumPending'}])
+    if rng.random() < 0.3:
+        b.client('c2', [b.add(0, pr), {'op': 'WUF'}])
+    p = b.prog(cfg)
+    p['max_step'] = 8000
     return p
 
 
@@ -670,7 +703,7 @@ def life_exhaustive(maxlen, seed, prefix):
     return out
 
 
-FAMILIES = {'cycles': fam_cycles, 'storm': fam_storm, 'stop2': fam_stop2, 'reject': fam_reject, 'multim': fam_multim, 'life': fam_life, 'distbind': fam_distbind, 'bind2': fam_bind2, 'tune': fam_tune, 'adapter': fam_adapter, 'dist': fam_dist, 'basic': fam_basic, 'barrier': fam_barrier, 'ctl': fam_ctl, 'cancel': fam_cancel, 'batch': fam_batch,
+FAMILIES = {'wq': fam_wq, 'cycles': fam_cycles, 'storm': fam_storm, 'stop2': fam_stop2, 'reject': fam_reject, 'multim': fam_multim, 'life': fam_life, 'distbind': fam_distbind, 'bind2': fam_bind2, 'tune': fam_tune, 'adapter': fam_adapter, 'dist': fam_dist, 'basic': fam_basic, 'barrier': fam_barrier, 'ctl': fam_ctl, 'cancel': fam_cancel, 'batch': fam_batch,
             'handle': fam_handle, 'pool': fam_pool, 'multi': fam_multi}
 
 
